@@ -600,8 +600,10 @@
     }
     pub open spec fn sign_rhopp(cap_k: Seq<u8>, rnd: Seq<u8>, mu: Seq<u8>) -> Seq<u8> { stream_take(shake256(cap_k + rnd + mu), 0, 64) }
     pub open spec fn sign_wit<const K: usize, const L: usize>(sk: PrivateKey<K, L>, sig: Seq<u8>, tau: int, lam4: int, a: [[T; L]; K], c: R, kappa: int) -> bool {
-        expand_a_rel(sk.rho@, a) && sib_rel(tau, shake256(sig.subrange(0, lam4)), c) && kappa >= 0 && kappa % (L as int) == 0
+        expand_a_rel(sk.rho@, a) && sib_rel(tau, shake256(sig.subrange(0, lam4)), c) && c_small(c, tau) && kappa >= 0 && kappa % (L as int) == 0
     }
+    // the challenge has tau coefficients +-1 and 256 - tau zeros (Algorithm 29's output shape)
+    pub open spec fn c_small(c: R, tau: int) -> bool { (forall|n: int| 0 <= n < 256 ==> -1 <= #[trigger] c.0[n] <= 1) && nz_count(c.0@, 256) == tau }
     pub open spec fn sign_spec<const K: usize, const L: usize>(sig: Seq<u8>, sk: PrivateKey<K, L>, mu: Seq<u8>, rnd: Seq<u8>,
             beta: int, gamma1: int, gamma2: int, omega: int, tau: int, lam4: int) -> bool {
         exists|a: [[T; L]; K], c: R, kappa: int| #[trigger] sign_wit(sk, sig, tau, lam4, a, c, kappa)
@@ -745,7 +747,7 @@
             z: [R; L], zmodq: [R; L], h: [R; K], mu: Seq<u8>, rnd: Seq<u8>, rhopp: Seq<u8>, beta: int, gamma1: int, gamma2: int, omega: int, tau: int, lam4: int)
         requires
             gamma1_ok(gamma1), gamma2_ok(gamma2), 1 <= K <= 8, 1 <= L <= 8, 0 <= lam4 <= 64, kappa >= 0, kappa % (L as int) == 0,
-            expand_a_rel(sk.rho@, a), sib_rel(tau, shake256(c_tilde), c), rhopp == sign_rhopp(sk.cap_k@, rnd, mu),
+            expand_a_rel(sk.rho@, a), sib_rel(tau, shake256(c_tilde), c), c_small(c, tau), rhopp == sign_rhopp(sk.cap_k@, rnd, mu),
             attempt_exec(a, sk, mask_ys(rhopp, kappa, gamma1, L as int), c, c_tilde, z, h, mu, beta, gamma1, gamma2, lam4),
             all_rejected_before(a, sk, mu, rhopp, kappa, beta, gamma1, gamma2, omega, tau, lam4),
             forall|l: int, n: int| 0 <= l < L && 0 <= n < 256 ==> #[trigger] zmodq[l].0[n] as int == mod_pm(z[l].0[n] as int, Q as int),
